@@ -15,12 +15,7 @@ void regCsrFileEdge(const std::string& cfg, unsigned flags) {
 }
 
 void registerCsrC() {
-#if 0 // full matrix: see c11_x_*.cpp
-  regCsrOptions<E12>(O_ALL, O_ALL);
-  regCsr<Csr<uint32_t, false, false, false>>("lock", O_ALL);
-#endif
   regCsr<Csr<uint32_t, true, false, false>>("nolock", O_ALL);
-  regCsr<Csr<uint32_t, false, true, false>>("lock+numa", O_ALL);
   regCsr<Csr<uint32_t, false, false, true>>("ool", O_ALL);
   regCsr<Csr<uint32_t, true, true, false>>("nolock+numa", O_CORE | O_MANUAL | O_VECTORS);
   regCsr<Csr<uint32_t, false, true, true>>("ool+numa", O_CORE | O_MANUAL | O_VECTORS);
